@@ -13,18 +13,20 @@ from . import api
 HERE = os.path.dirname(os.path.dirname(os.path.abspath(__file__)))
 
 EXPLANATION = (
-    "Decides the request/response *encoding* of every operation as a dataflow statement (so for all argument "
-    "values): (R1) end-to-end flow map — public API parameter -> constructor/builder -> resources/args component -> "
-    "fill_submission -> SQE byte position — must equal the row of abi/sqe_table.json (written from "
-    "io_uring_enter(2), positions are byte offsets so union-arm names do not matter), and every public parameter "
-    "must reach the SQE unless listed as control-only; (R2) opcode/flag numbers in src/io_uring/libc.rs agree with "
-    "<linux/io_uring.h>; (R3) each builder method writes one component obtained through args_mut()/resources_mut() "
-    "from its parameter, and those accessors return Some only on the NotStarted edge; (R4) the submit closure applies "
-    "OpTarget::set_flags after fill_submission and <AsyncFd as OpTarget>::set_flags marks IOSQE_FIXED_FILE iff the "
-    "descriptor is Direct; (R4b) IOSQE_FIXED_FILE qualifies position 4 only: whenever the AsyncFd's own descriptor "
-    "is placed elsewhere (splice_fd_in) the operation must mark that position itself — known finding K6 for "
-    "splice_to; (R5) decoders take the count / buffer id from the OpReturn of this completion. That the kernel "
-    "executes a request like the system call would is not decided."
+    'Decides the request/response *encoding* of every operation as a dataflow statement (so for all argument '
+    'values): (R1) end-to-end flow map — public API parameter -> constructor/builder -> resources/args '
+    'component -> fill_submission -> SQE byte position — must equal the row of abi/sqe_table.json (written '
+    'from io_uring_enter(2), positions are byte offsets so union-arm names do not matter), and every public '
+    'parameter must reach the SQE unless listed as control-only; (R2) opcode/flag numbers in '
+    'src/io_uring/libc.rs agree with <linux/io_uring.h>; (R3) each builder method writes one component '
+    'obtained through args_mut()/resources_mut() from its parameter, and those accessors return Some only on '
+    'the NotStarted edge; (R4) the submit closure applies OpTarget::set_flags after fill_submission and '
+    '<AsyncFd as OpTarget>::set_flags marks IOSQE_FIXED_FILE iff the descriptor is Direct; (R4b) '
+    "IOSQE_FIXED_FILE qualifies position 4 only: whenever the AsyncFd's own descriptor is placed elsewhere "
+    '(splice_fd_in) the operation must mark that position itself — known finding K6 for splice_to; (R5) '
+    'decoders take the count / buffer id from the OpReturn of this completion; (R6/R7) OpenOptions and '
+    'socket-option constants; (R8) returned socket addresses are decoded field by field the way they are '
+    'encoded (C16.R1). That the kernel executes a request like the system call would is not decided.'
 )
 NOT_DECIDED = "kernel-side semantics of each request; value conversions (timestamps etc.) for all inputs"
 ASSUMPTIONS = ["abi/sqe_table.json transcribes io_uring_enter(2) correctly", "/usr/include/linux/io_uring.h matches the targeted kernel ABI for opcodes <= 48"]
